@@ -1329,6 +1329,11 @@ def plan_C01_full(tier):
     qs.append(leaf_query("check_boundary"))
     if tier != "quick":
         qs += wrong_op_queries(1, "quick")
+        # max_depth 255 with a state array of exactly 255 entries: 255 nested objects accepted, 256 => MAX_DEPTH_OBJECT,
+        # all memory checks (structure concrete; about 25 minutes for both)
+        qs += [deep_object_query(255, 255), deep_object_query(256, 255), deep_object_query(12, 10), deep_object_query(11, 10)]
+    else:
+        qs += [deep_object_query(12, 10), deep_object_query(11, 10)]
     info["rule"] += " H-SCRIPT (mode ANY): arbitrary bytes, ops executed unconditionally, all memory checks. H-LEAF: _check_boundary for all 2^192 triples."
     return qs, info
 
@@ -1361,6 +1366,7 @@ def plan_C02_full(tier):
     qs += [deep_array_query(255, sym_inner=False), deep_array_query(256, sym_inner=False)]
     if tier != "quick":
         qs += [deep_array_query(254, sym_inner=False), deep_array_query(257, sym_inner=False), deep_unbalanced_query(257)]
+        qs += [deep_object_query(10, 10, prop="C02", checks="func"), deep_object_query(11, 10, prop="C02", checks="func")]
     if tier != "quick":
         # D = 10 (the default depth) on small buffers
         for n in (4, 6):
